@@ -87,7 +87,12 @@ async fn run(mut s: Sim, mut rng: Rng, _len: usize) -> Sim {
                    let poor = (node == g.nodes[6] || node == g.nodes[7]) && amount > 0;
                    if poor {
                        if !g.eps[i].wo { let ix = s.rd_enable_write_off(e, &g.payer); s.op(tx(vec![ix])).await; g.eps[i].wo = true; }
-                       let ix = s.rd_write_off(&g.debt_acc, e, &node, e, amount, &p); s.op(tx(vec![ix])).await; g.eps[i].uncollectible += amount;
+                       // the documented alternative: absorb the debt in a later epoch that is not yet swept, has finalized debt and enough
+                       // collectible debt left (fully settled, so the shared pool can still cover this epoch's sweep)
+                       let later: Vec<usize> = ((i + 1)..created.min(full)).filter(|&j| stage[j] >= 4 && stage[j] < 7
+                           && g.eps[j].total_debt - g.eps[j].uncollectible >= amount).collect();
+                       let tgt = if !later.is_empty() && rng.chance(1, 2) { *rng.pick(&later) } else { i };
+                       let ix = s.rd_write_off(&g.debt_acc, e, &node, tgt as u64, amount, &p); s.op(tx(vec![ix])).await; g.eps[tgt].uncollectible += amount;
                    } else {
                        s.op(Op::Airdrop(K::RdDeposit(b(&node)), amount)).await;
                        let ix = s.rd_pay(e, &node, amount, &p); s.op(tx(vec![ix])).await;
